@@ -41,6 +41,7 @@ let print_state oc (st : state) =
     @ (match st.tjob with Some j -> [ "tag:" ^ ph j.tj_phase ] | None -> [])
   in
   Buffer.add_string b (String.concat "," js);
+  Buffer.add_string b (" proc=" ^ join "," si st.processed);
   Buffer.add_string b (" unc=" ^ si st.unc);
   Buffer.add_string b (" next=" ^ si st.next_id);
   Buffer.add_char b '\n';
@@ -56,7 +57,7 @@ let kind_of = function
 let parse_action op args =
   match (op, args) with
   | "import", ks -> AImport (List.map (fun s -> n_of_int (int_of_string s)) ks)
-  | "view", [ v ] -> AView (n_of_int (int_of_string v))
+  | "view", [ v ] | "view", [ v; "p" ] -> AView (n_of_int (int_of_string v))
   | "read", [ v ] -> ARead (n_of_int (int_of_string v))
   | "release", [ v ] -> ARelease (n_of_int (int_of_string v))
   | "tagadd", _ -> ATagAdd
@@ -187,6 +188,7 @@ let () =
   let bad (k : n) : bool = List.mem (int_of_n k) !bads in
   let step st a = if legacy then step_legacy capdb bad st a else step_impl capdb bad st a in
   let st = ref init in
+  let prefetching : int list ref = ref [] in   (* views whose battery asks with PrefetchAllTags *)
   let stuck = ref false in
   (try
      while true do
@@ -198,6 +200,7 @@ let () =
              st := init;
              caps := [];
              bads := [];
+             prefetching := [];
              stuck := false;
              output_string oc ("H " ^ String.concat " " name ^ "\n")
          | "cap" :: k :: pk -> caps := (int_of_string k, parse_packets pk) :: !caps
@@ -226,8 +229,13 @@ let () =
                    end
                    else st := step !st a);
                if not !stuck then begin
-                 (* the harness reads every open view after every action *)
-                 List.iter (fun (v, _) -> st := step !st (ARead v)) !st.views;
+                 (match (op, args) with "view", [ v; "p" ] -> prefetching := int_of_string v :: !prefetching | _ -> ());
+                 (* the harness reads every open view after every action (views opened with "p" ask with PrefetchAllTags) *)
+                 List.iter
+                   (fun (v, _) ->
+                     st := step !st (ARead v);
+                     if List.mem (int_of_n v) !prefetching then st := step !st (APrefetch v))
+                   !st.views;
                  print_state oc !st
                end
              end
